@@ -29,6 +29,7 @@ RULE = (
     "training rows; override=True controls must return model scores. direction: assign_confidence on (x, desc=False) "
     "vs (-x, desc=True). Non-trivial (safety) = the run either fell back or its model was compared with a best "
     "feature accepting >= 5 targets; distinct = case parameters."
+    " Half of the safety tables are written with all targets before all decoys or the reverse."
 )
 ASSUMPTIONS = [
     "genuine targets come from the generator's ground truth, never from the file's label column",
@@ -82,6 +83,14 @@ def run_safety(case):
             tab = psm.psm_table(rng, n_spectra=(int(rng.integers(2500, 4000)) if strict else int(rng.integers(120, 220)) * case["folds"] * big), mult_max=2,
                                 key_cols=("ExpMass",), file_index=fi, label_enc=case["enc"],
                                 best_feature_desc=case["best_desc"], sep_strength=3.0, n_info=1, n_noise=3)
+            # row order of the file: shuffled, or all targets before all decoys (concatenated target and decoy search
+            # results) or the reverse - tied scores then sit in label order
+            order = str(rng.choice(["shuffled", "shuffled", "targets_first", "decoys_first"]))
+            if order != "shuffled":
+                t = tab["truth"]["is_target"].values
+                idx = np.argsort(~t if order == "targets_first" else t, kind="stable")
+                tab["df"] = tab["df"].iloc[idx].reset_index(drop=True)
+                tab["truth"] = tab["truth"].iloc[idx].reset_index(drop=True)
             tabs.append(tab)
             paths.append(psm.write_parquet(tab, d / f"f{fi}.parquet", row_group_size=int(rng.integers(20, 500)))
                          if case["fmt"] == "parquet" else psm.write_pin(tab, d / f"f{fi}.pin"))
